@@ -194,7 +194,7 @@ class Ctx:
         return out.reshape(D.shape)
 
     # ---- obligations
-    def equal(self, name, impl, oracle, tol=None, box=None, note="", rtol_replay=1e-6):
+    def equal(self, name, impl, oracle, tol=None, box=None, note="", rtol_replay=1e-6, linear_in=None):
         impl = np.asarray(impl, dtype=object if self.sym else float)
         oracle = np.asarray(oracle, dtype=object if self.sym else float)
         if impl.shape != oracle.shape:
@@ -209,6 +209,33 @@ class Ctx:
                 res.append(mk("-", a, b))
                 labels.append(list(i))
                 im.append(a)
+            if linear_in is not None:
+                # the residual is linear (homogeneous) in these variables: its coefficients are the
+                # per-variable derivatives; proving each of them (and the value at 0) is an exact split
+                ws = [lift(w) for w in np.asarray(linear_in, dtype=object).reshape(-1)]
+                zero_map = {w: ZERO for w in ws}
+                split, slabels = [], []
+                rest = S.substitute(res, zero_map)
+                uniq = {}
+                for r, lab in zip(res, labels):
+                    if r.id in uniq or r is ZERO:
+                        continue
+                    uniq[r.id] = (r, lab)
+                dd = Differ(uf_rule=self.uf_rule)
+                rl = [v[0] for v in uniq.values()]
+                for k, w in enumerate(ws):
+                    ds = dd.dmany(rl, w)
+                    for d, (r, lab) in zip(ds, uniq.values()):
+                        if d is not ZERO:
+                            split.append(d)
+                            slabels.append(lab + ["d/dw%d" % k])
+                for r0, lab in zip(rest, labels):
+                    if r0 is not ZERO:
+                        split.append(r0)
+                        slabels.append(lab + ["w=0"])
+                if not split:
+                    split, slabels = [ZERO], [["all"]]
+                res, labels = split, slabels
             self.obligations.append(
                 Obligation(name, "zero", res, labels, im, list(self.assumptions), tol, box, note, rtol_replay)
             )
@@ -522,18 +549,27 @@ class CaseRunner:
         t0 = time.time()
         if ob.kind == "holds":
             return self.decide_holds(norm, ctx, pc, pi, ob)
-        zero_idx, tiny_idx, non_idx = [], [], []
+        zero_idx, tiny_idx, non_idx, raw_idx = [], [], [], []
         nums, dens, polys = [], [], []
         for k, r in enumerate(ob.residuals):
-            try:
-                num, den = norm.ratnorm(r)
-                P = norm.poly(num)
-            except MemoryError as e:
-                self._record(ob, pi, "inconclusive", "expand", str(e))
-                self.inconclusive.append({"obligation": ob.name, "reason": str(e)})
-                return
+            num, den = norm.ratnorm(r)
             nums.append(num)
             dens.append(den)
+        pre = self.numeric_triage(ctx, nums) if ob.tol is None else None
+        for k, num in enumerate(nums):
+            if pre is not None and pre[k] == "z":
+                # numerically indistinguishable from 0 at random points: ask the solver the exact
+                # question on the unexpanded numerator straight away (no own expansion)
+                polys.append(None)
+                raw_idx.append(k)
+                continue
+            try:
+                P = norm.poly(num)
+            except MemoryError:
+                # triage budget exceeded: the solver gets the unexpanded question directly
+                polys.append(None)
+                raw_idx.append(k)
+                continue
             polys.append(P)
             if P.is_zero():
                 zero_idx.append(k)
@@ -542,12 +578,14 @@ class CaseRunner:
             else:
                 non_idx.append(k)
         assumptions = list(ob.assumptions) + list(pc)
-        self._dctx = (norm, ctx, ob, pi, nums, dens, assumptions, tiny_idx + non_idx)
+        self._dctx = (norm, ctx, ob, pi, nums, dens, assumptions, tiny_idx + non_idx + raw_idx)
         # ---- Q-exact on the unexpanded numerators (solver re-derives the normal form)
         ok = True
+        viol = None
         if zero_idx:
             ok = self.q_exact(norm, ob, pi, [nums[k] for k in zero_idx], assumptions)
-        viol = None
+        if ok and raw_idx:
+            ok, viol = self.q_raw(norm, ctx, ob, pi, raw_idx, nums, dens, assumptions)
         if ok and tiny_idx:
             ok, viol = self.q_tol(norm, ctx, ob, pi, tiny_idx, nums, dens, polys, assumptions)
         if non_idx and viol is None:
@@ -604,6 +642,105 @@ class CaseRunner:
         if cert and not self._q_exact_cert(norm, ob, pi, cert, assumptions):
             return False
         return True
+
+    def numeric_triage(self, ctx, nums, npoints=2):
+        """cheap float evaluation of the residual numerators at random points of the domain; only
+        used to choose which question is put to the solver"""
+        import zlib
+
+        rng = random.Random(self.seed + 12345)
+        names = set(S.variables([n for n in nums if n is not ZERO]))
+        verdict = ["z"] * len(nums)
+
+        def uf_eval(name, idx, args):
+            h = zlib.crc32(repr((name, idx)).encode()) % 1000 / 500.0
+            return math.sin(h + sum((0.37 + 0.11 * k) * a for k, a in enumerate(args)))
+
+        for _ in range(npoints):
+            env = dict(S.SPECIAL_CONSTANTS)
+            for nm in names:
+                if nm in env:
+                    continue
+                lo, hi = ctx.vars.get(nm, (None, None))
+                lo = -1.0 if lo is None else float(lo)
+                hi = 1.0 if hi is None else float(hi)
+                if hi < lo:
+                    lo, hi = hi, lo
+                env[nm] = rng.uniform(lo, hi)
+            try:
+                vals = evalf([n for n in nums], env, uf_eval=uf_eval)
+            except (ValueError, ZeroDivisionError, OverflowError, KeyError):
+                return None
+            mx = max((abs(v) for v in vals), default=0.0)
+            thr = 1e-8 * (1.0 + mx)
+            for k, v in enumerate(vals):
+                if not (abs(v) <= thr):
+                    verdict[k] = "nz"
+        return verdict
+
+    RAW_CHUNK = 48
+
+    def q_raw(self, norm, ctx, ob, pi, idx, nums, dens, assumptions):
+        """unexpanded exact question to the solver: assumptions /\\ (\\/ num_i != 0); sat/undecided
+        parts are split; single undecided entries fall back to the expansion-based routes"""
+        uniq = list({nums[k].id: (k, nums[k]) for k in idx if nums[k] is not ZERO}.values())
+        if not uniq:
+            em = Emitter(norm)
+            r = self.solve(em.script(["(distinct 0.0 0.0)"]), "z3", 10)
+            return r.status == "unsat", None
+        T = self.budget.exact_timeout
+        queue = [uniq[i : i + self.RAW_CHUNK] for i in range(0, len(uniq), self.RAW_CHUNK)]
+        hard = []
+        while queue:
+            part = queue.pop()
+            em = Emitter(norm)
+            em.add([n for _k, n in part])
+            asserts = self._domain_asserts(em, assumptions)
+            asserts.append("(or %s)" % " ".join("(distinct %s 0.0)" % em.ref(n) for _k, n in part) if len(part) > 1 else "(distinct %s 0.0)" % em.ref(part[0][1]))
+            text = em.script(asserts)
+            self.smt_sizes.append(len(text))
+            r = self.solve(text, "z3", T if len(part) > 1 else max(10, T // 2))
+            if r.status == "unsat":
+                self._cross(text, "unsat")
+                continue
+            if len(part) > 1:
+                size = max(1, len(part) // 6)
+                for i in range(0, len(part), size):
+                    queue.append(part[i : i + size])
+                continue
+            if r.status in ("timeout", "unknown"):
+                ok2 = False
+                for s2 in ("z3-new", "cvc5"):
+                    r3 = self.solve(text, s2, max(10, T // 2))
+                    if r3.status == "unsat":
+                        ok2 = True
+                        break
+                if ok2:
+                    continue
+            hard.append(part[0][0])
+            if len(hard) > 6:
+                break
+        if not hard:
+            return True, None
+        # expansion-based triage for the few entries the solver did not refute directly
+        for k in hard:
+            try:
+                P = norm.poly(nums[k])
+            except MemoryError:
+                sv = self.sampled_violation()
+                if sv is not None:
+                    return False, sv
+                self._record(ob, pi, "inconclusive", "Q-raw", "entry %s: solver undecided and expansion over budget" % ob.labels[k])
+                self.inconclusive.append({"obligation": ob.name, "reason": "Q-raw undecided (expansion over triage budget)"})
+                return False, None
+            if P.is_zero():
+                if not self.q_exact(norm, ob, pi, [nums[k]], assumptions):
+                    return False, None
+            else:
+                polys = {k: P}
+                viol = self.q_cex(norm, ctx, ob, pi, [k], nums, dens, polys, assumptions)
+                return False, viol
+        return True, None
 
     def _q_exact_plain(self, norm, ob, pi, uniq, assumptions):
         T = self.budget.exact_timeout
@@ -746,7 +883,12 @@ class CaseRunner:
                 gens |= denP.gens()
             boxes = self._boxes(norm, ctx, ob, gens)
             if boxes is None:
-                self._record(ob, pi, "inconclusive", "Q-tol", "no box for a generator of entry %s" % ob.labels[k])
+                missing = []
+                for g in gens:
+                    info = norm.gen_info[g]
+                    if self._boxes(norm, ctx, ob, {g}) is None:
+                        missing.append(info.get("name"))
+                self._record(ob, pi, "inconclusive", "Q-tol", "no box for generators %s of entry %s" % (missing[:5], ob.labels[k]))
                 self.inconclusive.append({"obligation": ob.name, "reason": "Q-tol without box"})
                 return False, None
             den_lo = Fraction(1)
